@@ -28,7 +28,7 @@ from .common import local_names
 
 SINGLE = {"numpy.float32", "numpy.float16", "numpy.single", "numpy.half"}
 SINGLE_STR = {"float32", "float16", "f4", "f2", "single", "half", "<f4", "<f2"}
-CASTERS = {"numpy.array", "numpy.asarray", "numpy.asanyarray", "numpy.ascontiguousarray", "numpy.zeros_like", "numpy.empty_like",
+CASTERS = {"numpy.array", "numpy.asarray", "numpy.asanyarray", "numpy.asarray_chkfinite", "numpy.ascontiguousarray", "numpy.zeros_like", "numpy.empty_like",
            "numpy.ones_like", "numpy.full_like"}
 
 
